@@ -113,4 +113,17 @@ META = {
                 "report IllegalState (c56ec95).",
         "technique": "Coq proof (state invariant lifted over event lists) + extracted-model-vs-engine correspondence on scripted-peer traces",
     },
+    "C17": {
+        "text": "Theorems (Coq, closed): after any history on a connection that agreed on min(local, remote) channel-max a session is "
+                "only begun on a channel within both limits and the only refusal is the local channel-max error, raised exactly when the "
+                "next free channel is above the agreed maximum; with a peer idle-time-out r > 0, while the connection stays open every "
+                "window of r ms since the open contains a written frame; with a local idle-time-out l > 0 a connection still running has "
+                "heard from the peer less than l ms ago, the deadline fires exactly l ms after the last arrival and never without a "
+                "configured time-out. The timed model is run against the real engine under tokio's paused clock with time-stamped wire "
+                "observations; the channel model against the real Connection through the facade.",
+        "design_ref": "DESIGN.md section 4, C17",
+        "note": "Trusted: Coq kernel, extraction, tokio's paused timer wheel, the scripted-peer harness. Heartbeats under session "
+                "back-pressure are not modelled (partial). Fixed defect found here: heartbeats kept being written after close_with_error (5dd1d8c).",
+        "technique": "Coq proof (timer invariants over scripts; slab invariant over histories) + extracted-model-vs-engine correspondence under virtual time",
+    },
 }
